@@ -49,6 +49,10 @@
   The second half of the file puts a clock on this machine (`TState`, `tstep`): the grace timer is
   started at the instant of the first `eof` and `graceExpire` is enabled only once the period has
   elapsed.
+  After the acceptor come two more layers, each of which leaves `step` as it is: `Legs` / `hstep` — what
+  `closeWriter` can do to the destination of the direction that has finished (`CloseWrite` found or not:
+  whether and when its far end is SHOWN end-of-stream) — and `Limits` / `lstep` — the limits of the phases
+  before the tunnel on the clock of `TState`, none of which is armed once the tunnel is established.
 
   Core-only.
 -/
@@ -381,6 +385,271 @@ def rejectReason (o : Obs) : String :=
   else if o.closedC != (o.up.fin && o.down.fin) then "client-socket-closure"
   else if o.closedT != (o.up.fin && o.down.fin) then "target-socket-closure"
   else "accepted"
+
+/-! ### Leg capabilities: what `copier.closeWriter` can do to the destination of a direction
+
+  When the copier of direction `d` returns it calls `closeWriter` (`copy.go`): `asCloseWriter(dst)`
+  (`close.go`) looks for `CloseWrite` on the destination itself, then — by reflection, depth first —
+  on its fields; a bare `*io.PipeWriter` is closed, which for a pipe is a half-close.  Every leg the
+  proxy dials itself has a `CloseWrite` (`*net.TCPConn`, `*tls.Conn`, the conntrack wrappers, the SOCKS5
+  client's connection, `net/http`'s `readWriteCloserBody`); what a custom `ConnectFunc` returns need not
+  (a multiplexer's stream, `net.Pipe`, a pair of `io.Pipe` halves).  For such a leg the code logs "cannot
+  close write side of tunnel" and does nothing else: the far end is not shown end-of-stream until the
+  tunnel is closed, and the opposite direction goes on.
+
+  The machine below is `step` with that case distinction on top (`eof d` of `step` = "the copier of `d`
+  returned having read end-of-stream and called `closeWriter`"; whether the far end of `d` SEES the
+  end-of-stream is `shown d`):
+
+  * `Cap.halfClose`   `closeWriter` half-closes the destination: its far end is shown end-of-stream at once;
+  * `Cap.none`        it cannot: `CwPolicy.leave` (the code) leaves the leg alone; `CwPolicy.closeInstead`
+                      (a variant the code must not become) closes the leg, which is also the SOURCE of the
+                      opposite direction: that copier's read fails, it half-closes ITS destination and
+                      returns, `bicopy` returns — the tunnel is gone with the opposite stream cut (`cut`);
+  * when the second copier returns, `bicopy` returns and both legs are closed (`defer crw.Close()`,
+    the connection loop's close): whoever had not been shown end-of-stream is shown it now, after the
+    last byte (both sources have finished and nothing is left to copy). -/
+
+/-- can `closeWriter` half-close this leg? -/
+inductive Cap where
+  | halfClose
+  | none
+  deriving DecidableEq, Repr
+
+/-- capabilities of the two legs as destinations: `target` is the destination of `up`, `client` of `down` -/
+structure Legs where
+  client : Cap := .halfClose
+  target : Cap := .halfClose
+  deriving DecidableEq, Repr
+
+def Legs.dst (L : Legs) : Dir → Cap
+  | .up => L.target
+  | .down => L.client
+
+/-- what `closeWriter` does with a destination it cannot half-close -/
+inductive CwPolicy where
+  /-- the code: log, leave the leg alone -/
+  | leave
+  /-- the variant: `Close` as a stand-in for `CloseWrite` -/
+  | closeInstead
+  deriving DecidableEq, Repr
+
+structure HState where
+  s : State := {}
+  /-- the far end of `up` (the target) / of `down` (the client) has been shown end-of-stream -/
+  shownU : Bool := false
+  shownD : Bool := false
+  /-- variant only: a leg was closed under the direction that was still flowing -/
+  cut : Bool := false
+  deriving DecidableEq, Repr
+
+def hinit : HState := {}
+
+def HState.shown (h : HState) : Dir → Bool
+  | .up => h.shownU
+  | .down => h.shownD
+
+def HState.setShown (h : HState) : Dir → HState
+  | .up => { h with shownU := true }
+  | .down => { h with shownD := true }
+
+/-- the leg that is the destination of `d` is closed while the copier of `d.other` is running: its read
+    fails, it half-closes its own destination (whose far end so reads end-of-stream although the source
+    has not finished) and returns; both sockets are closed -/
+def cutState (s : State) (d : Dir) : State :=
+  { s.setPipe d.other { s.pipe d.other with eof := true, done := true } with
+    phase := .closed, closedC := true, closedT := true }
+
+def hstep (c : Cfg) (L : Legs) (pol : CwPolicy) (h : HState) (st : Step) : Option HState :=
+  match step c h.s st with
+  | none => none
+  | some s' =>
+    match st with
+    | .eof d =>
+      if s'.phase = .closed then some { h with s := s', shownU := true, shownD := true }
+      else
+        match L.dst d, pol with
+        | .halfClose, _ => some ({ h with s := s' }.setShown d)
+        | .none, .leave => some { h with s := s' }
+        | .none, .closeInstead => some { s := cutState s' d, shownU := true, shownD := true, cut := true }
+    | _ => some { h with s := s' }
+
+def hrunFrom (c : Cfg) (L : Legs) (pol : CwPolicy) : HState → List Step → Option HState
+  | h, [] => some h
+  | h, st :: rest =>
+    match hstep c L pol h st with
+    | none => none
+    | some h' => hrunFrom c L pol h' rest
+
+def hrun (c : Cfg) (L : Legs) (pol : CwPolicy) (steps : List Step) : Option HState :=
+  hrunFrom c L pol hinit steps
+
+/-- what the endpoints observe of a state of the machine with capabilities: end-of-stream is `shown` -/
+def hobserve (c : Cfg) (h : HState) : Obs :=
+  { up := { observeDir c h.s .up with eof := h.shownU }
+    down := { observeDir c h.s .down with eof := h.shownD }
+    closedC := h.s.closedC, closedT := h.s.closedT }
+
+/-- a direction whose destination can be half-closed: end-of-stream iff the source has finished; one
+    whose destination cannot: end-of-stream iff the tunnel is closed, i.e. both sources have finished -/
+def DirObs.okCap (o : DirObs) (cap : Cap) (bothFin : Bool) : Bool :=
+  o.pfx && o.got == o.sent &&
+    (match cap with
+     | .halfClose => o.eof == o.fin
+     | .none => o.eof == bothFin)
+
+/-- `accept` knowing the capabilities of the legs -/
+def acceptL (L : Legs) (o : Obs) : Bool :=
+  o.up.okCap (L.dst .up) (o.up.fin && o.down.fin) && o.down.okCap (L.dst .down) (o.up.fin && o.down.fin) &&
+    o.closedC == (o.up.fin && o.down.fin) && o.closedT == (o.up.fin && o.down.fin)
+
+def rejectReasonL (L : Legs) (o : Obs) : String :=
+  let both := o.up.fin && o.down.fin
+  let eofOk (d : DirObs) (cap : Cap) : Bool :=
+    match cap with
+    | .halfClose => d.eof == d.fin
+    | .none => d.eof == both
+  if !o.up.pfx then "up-not-a-prefix"
+  else if o.up.got != o.up.sent then "up-length"
+  else if !eofOk o.up (L.dst .up) then "up-eof"
+  else if !o.down.pfx then "down-not-a-prefix"
+  else if o.down.got != o.down.sent then "down-length"
+  else if !eofOk o.down (L.dst .down) then "down-eof"
+  else if o.closedC != both then "client-socket-closure"
+  else if o.closedT != both then "target-socket-closure"
+  else "accepted"
+
+/-! ### Request and dial limits on the clock
+
+  Before a tunnel is established the proxy works under limits: reading the request (`readRequest`:
+  `ReadHeaderTimeout` / `ReadTimeout` from the first byte of the request on), reaching the far end
+  (`ConnectTimeout`, which `connectHTTP` / `connectSOCKS5` hand to the `dialvia` dialers as their
+  `Timeout`; the dialer's own timeout; the TLS handshake timeouts), writing the reply (`WriteTimeout`).
+  Each is armed when its phase begins and ENDS WITH IT: `dialvia` derives a context with the timeout and
+  cancels it on return, `writeResponse` clears the write deadline in a `defer`, and `tunnel` clears the
+  read deadline of the request before `bicopy` (`proxy_conn.go`; the handler path hijacks the connection,
+  which clears its deadlines).  A limit that expires before the tunnel is established abandons the
+  request (`aborted`: an error response or a closed connection, never a tunnel).  Once the machine is in
+  phase `tunnel` no limit is armed: the only thing of a tunnel that reads the clock is the grace timer
+  of `TState`.
+
+  `DeadlinePolicy.inherited` is the variant the code must not become: the deadline armed for the dial is
+  put on the connection itself (`SetDeadline`) and never cleared, so it is still there when the
+  connection has become the far leg of the tunnel; when it expires both copiers fail, the client is shown
+  end-of-stream although the far end never finished (`limitCut`). -/
+
+structure Limits where
+  /-- reading the request head, from its first byte -/
+  read : Option Nat := none
+  /-- reaching the far end: dial, upstream proxy's reply, TLS handshake -/
+  dial : Option Nat := none
+  /-- writing the reply to the client -/
+  write : Option Nat := none
+  deriving DecidableEq, Repr
+
+inductive DeadlinePolicy where
+  | cleared
+  | inherited
+  deriving DecidableEq, Repr
+
+def Limits.forPhase (lim : Limits) : Phase → Option Nat
+  | .dialing => lim.dial
+  | .replied => lim.write
+  | _ => none
+
+/-- the tunnel is established: the reply has been written and `bicopy` runs, or has run -/
+def Phase.established : Phase → Bool
+  | .tunnel => true
+  | .closed => true
+  | _ => false
+
+structure LState where
+  t : TState := {}
+  /-- absolute instant at which the armed limit expires -/
+  deadline : Option Nat := none
+  /-- a limit expired before the tunnel was established: the request is abandoned -/
+  aborted : Bool := false
+  /-- variant only: a limit expired on an established tunnel -/
+  cutByLimit : Bool := false
+  deriving DecidableEq, Repr
+
+def linit : LState := {}
+
+inductive LStep where
+  | t (st : TStep)
+  | limitExpire
+  deriving DecidableEq, Repr
+
+/-- both copiers fail on the expired deadline: the one reading the far leg half-closes the client leg
+    (which so reads end-of-stream), everything is closed -/
+def limitCut (s : State) : State :=
+  { s with
+    phase := .closed, closedC := true, closedT := true
+    up := { s.up with done := true }
+    down := { s.down with eof := true, done := true } }
+
+/-- the limit armed after a step of the machine that led from `old` to `new` at instant `now` -/
+def nextDeadline (lim : Limits) (pol : DeadlinePolicy) (cur : Option Nat) (old new : State) (now : Nat) :
+    Option Nat :=
+  if new.phase = old.phase then
+    -- the read limit starts with the first byte of the request
+    if new.phase = .reading ∧ old.up.written = [] ∧ new.up.written ≠ [] then lim.read.map (· + now) else cur
+  else
+    match pol with
+    | .cleared => (lim.forPhase new.phase).map (· + now)
+    | .inherited =>
+      -- the deadline of the dial stays on the connection for good
+      if old.phase = .reading then (lim.forPhase new.phase).map (· + now) else cur
+
+def LState.stopped (l : LState) : Bool := l.aborted || l.cutByLimit
+
+/-- a pending limit does not let time pass beyond its deadline without expiring -/
+def LState.limitBlocks (l : LState) (n : Nat) : Bool :=
+  match l.deadline with
+  | some dl => decide (dl < l.t.now + n)
+  | none => false
+
+def lstep (c : Cfg) (τ : Timing) (lim : Limits) (pol : DeadlinePolicy) (l : LState) : LStep → Option LState
+  | .t (.tick n) =>
+    if l.stopped = true then none
+    else if l.limitBlocks n = true then none
+    else
+      match tstep c τ l.t (.tick n) with
+      | some t' => some { l with t := t' }
+      | none => none
+  | .t (.act st) =>
+    if l.stopped = true then none
+    else
+      match tstep c τ l.t (.act st) with
+      | some t' => some { l with t := t', deadline := nextDeadline lim pol l.deadline l.t.s t'.s l.t.now }
+      | none => none
+  | .limitExpire =>
+    if l.stopped = true then none
+    else
+      match l.deadline with
+      | some dl =>
+        if dl ≤ l.t.now then
+          if l.t.s.phase.established = true then
+            some { l with t := { l.t with s := limitCut l.t.s }, deadline := none, cutByLimit := true }
+          else some { l with deadline := none, aborted := true }
+        else none
+      | none => none
+
+def lrunFrom (c : Cfg) (τ : Timing) (lim : Limits) (pol : DeadlinePolicy) : LState → List LStep → Option LState
+  | l, [] => some l
+  | l, st :: rest =>
+    match lstep c τ lim pol l st with
+    | none => none
+    | some l' => lrunFrom c τ lim pol l' rest
+
+def lrun (c : Cfg) (τ : Timing) (lim : Limits) (pol : DeadlinePolicy) (steps : List LStep) : Option LState :=
+  lrunFrom c τ lim pol linit steps
+
+/-- the timed schedule of one with limits: limit expiries erased -/
+def lerase : List LStep → List TStep
+  | [] => []
+  | .t st :: rest => st :: lerase rest
+  | .limitExpire :: rest => lerase rest
 
 end C03
 end FwdVerif
